@@ -33,6 +33,10 @@ def classify(case, verdict, detail, eng_out):
     ops = case.get('ops', [])
     if verdict in ('DISAGREE:engine-error', 'DISAGREE:model-divzero') and eng_out[0] == 'raw':
         cls = eng_out[1].split('.')[-1]
+        if nested and cls in ('BinderException', 'ParserException', 'ConversionException', 'CatalogException'):
+            # one finding per exception class: inside nested dataset expressions the transpiler's second structure
+            # inference goes wrong in many ways (renamed measures, stale types, correlated subqueries …)
+            return 'nested-expression:transpiler-emits-sql-duckdb-rejects:' + cls
         return '%s:%s:%s' % (shape, cls, msg_head(eng_out))
     if verdict == 'DISAGREE:engine-error' and eng_out[0] == 'vtl':
         return '%s:%s:%s' % (shape, eng_out[1], eng_out[2])
